@@ -8,13 +8,19 @@ _COMPONENTS = [
     "gun/http", "gun/http2", "gun/connect", "gun/http/scenario", "gun/http2/scenario", "gun/grpc", "gun/grpc/scenario",
 ]
 
+import os as _os
+
+# TestDiscardOverflowDefault needs the hook cli.ReadConfigForVerif (see harness/c17/cli_test.go)
+_CLI_HOOK = _os.path.exists("/repo/cli/verif_export.go")
+
 SPEC = {
     "pkg": "c17",
     "tests": [
         {"name": "TestValid", "quick": 1600, "thorough": 96000, "shards_quick": 4, "shards_thorough": 16, "timeout": 1800},
         {"name": "TestMutations", "quick": 4800, "thorough": 288000, "shards_quick": 6, "shards_thorough": 16, "timeout": 1800},
         {"name": "TestPlaceholders", "quick": 2400, "thorough": 144000, "shards_quick": 4, "shards_thorough": 16, "timeout": 1800},
-    ],
+    ] + ([{"name": "TestDiscardOverflowDefault", "quick": 400, "thorough": 16000, "shards_quick": 2, "shards_thorough": 16,
+           "timeout": 1800}] if _CLI_HOOK else []),
     "rule": ("confgen reflects over the Go config struct of every component registered by core/import, phttp/import and grpc/import "
              "(34 (kind, name) pairs + the pool struct + the CLI root struct) and draws valid CLI-level configs: 1-3 pools, each with a "
              "gun / ammo / result / rps / startup section of a sampled component, every optional key given with probability 0.35, nested "
@@ -27,8 +33,9 @@ SPEC = {
              "TestPlaceholders: a sampled scalar literal is replaced by ${env:V} / ${property:file#key} (whole value, or embedded for "
              "strings and durations) and must decode to the same configuration; unset variable / missing key / missing file must be "
              "rejected. Depth: root and pool keys 0, component keys 1, nested struct / nested plugin / composite element keys >= 2. "
-             "Non-trivial = mutation (or, for TestValid, a given key) at depth >= 2, or a placeholder in a non-string field; "
-             "distinct = hash of the case."),
+             "Non-trivial = mutation (or, for TestValid, a given key) at depth >= 2, or a placeholder in a non-string field "
+             "(TestDiscardOverflowDefault, when the cli hook exists: generated YAML/JSON files with 1-3 pools read by the real CLI "
+             "reader, non-trivial = a pool without the discard_overflow key); distinct = hash of the case."),
     "floors": {
         "TestValid/given_depth_ge_2": 0.4, "TestValid/pools_gt_1": 0.1, "TestValid/list_composite": 0.2,
         "TestMutations/kind:unknown_key": 0.3, "TestMutations/kind:wrong_type": 0.15, "TestMutations/kind:constraint": 0.05,
